@@ -52,9 +52,11 @@ def handle2 (cmd : String) (xs : List Int) : Option String :=
       toString (FixedConv.otRoundInt f 0 65535 (decode f bits.toNat))
   | "otr.f", [f, bits] => (fmt? f).map fun f => (FixedConv.otRoundF f (decode f bits.toNat)).show
   | "otr.point", [bx, by'] =>
-      some s!"{FixedConv.otRoundInt f64 (-32768) 32767 (decode f64 bx.toNat)} {FixedConv.otRoundInt f64 (-32768) 32767 (decode f64 by'.toNat)}"
+      let r := FixedConv.otRoundPoint (decode f64 bx.toNat) (decode f64 by'.toNat)
+      some s!"{r.1} {r.2}"
   | "otr.vec2", [bx, by'] =>
-      some s!"{(FixedConv.otRoundF f64 (decode f64 bx.toNat)).show} {(FixedConv.otRoundF f64 (decode f64 by'.toNat)).show}"
+      let r := FixedConv.otRoundVec2 (decode f64 bx.toNat) (decode f64 by'.toNat)
+      some s!"{r.1.show} {r.2.show}"
   | "ord.be", kc :: n :: rest =>
       match kind? kc n.toNat with
       | none => none
